@@ -66,7 +66,15 @@ def gen_image(rng, tier):
                 if 2 * nw + 140 > SECTOR:
                     meta["multi_sector"] = True
                 t = rng.random() < 0.5
-                files.append(AW.SampleFile(name=n, pcm=pcm, start=start, end=end, rate=rng.choice([0, 22050, 44100, 48000, 65535, 8000]),
+                # loop tables: active loops inside AND beyond the markers, any loop mode - the exported data is the marker window regardless
+                lps, lt = [], 2
+                if nw > 8 and rng.random() < 0.35:
+                    lt = rng.choice([0, 1, 3, 2])
+                    for _l in range(rng.randint(1, 3)):
+                        at = rng.choice([nw - 1, nw // 2, (end if end is not None else nw) + rng.randint(0, max(0, nw - (end or nw))), rng.randint(1, nw - 1)])
+                        lps.append(AW.Loop(at=min(at, nw - 1), fine=rng.choice([0, 100]), coarse=rng.randint(1, max(1, min(at, nw - 1))), duration=rng.choice([0, 25, 9999])))
+                    meta["loops"] = True
+                files.append(AW.SampleFile(name=n, pcm=pcm, start=start, end=end, loop_type=lt, loops=lps, rate=rng.choice([0, 22050, 44100, 48000, 65535, 8000]),
                                            type_byte=0xF3 if t else 0x73, header_id=3 if t else 1, note=rng.randint(21, 108),
                                            cents=rng.randint(-128, 127), semi=rng.randint(-20, 50)))
             # slots that are not sample files: deleted entry (type 0), file types the tool does not know, drum/effects files
